@@ -7,8 +7,10 @@ import TinsModel.Basic.Seq32
     is written with an explicit `wrap32` (`last_ + 1`, `sack[i] - 1`, `sequence_number + length - 1`).
   * `boost::icl::interval_set<uint32_t>` is a *parameter*: a list of closed intervals kept sorted, disjoint and
     non-touching (icl joins touching intervals of a discrete domain), with `insertIvl`, `eraseIvl`,
-    `containsIvl` specified by point-set semantics (`ISet.mem`; lemmas in `Ack/Lemmas.lean`).  Its behaviour
-    (including the printed canonical form) is validated against the real icl by the correspondence run.
+    `containsIvl` specified by point-set semantics (`ISet.mem`; lemmas in `Ack/Lemmas.lean`, canonical form in
+    `Ack/Canon.lean`).  The assumption about icl is stated as an explicit contract in `Ack/Icl.lean` (`IclContract`) and
+    shown to determine every observation; that the real icl meets it (including the printed canonical form) is
+    validated by the correspondence run (`icl` op stream).
   * `AckedRange::next()` only ever builds `interval_type::closed(..)`, hence `interval_start` / `interval_end`
     (which special-case left-open / right-open bounds) reduce to `lower()` / `upper()`: `Ivl.lo` / `Ivl.hi`.
   * The two `while (range.has_next())` loops are run with fuel 3; `Lemmas.drain_fuel` shows two iterations
@@ -49,12 +51,23 @@ def eraseIvl (s : ISet) (lo hi : Nat) : ISet :=
 def containsIvl (s : ISet) (lo hi : Nat) : Bool :=
   (s.foldl (fun rem j => eraseIvl rem j.lo j.hi) [⟨lo, hi⟩]).isEmpty
 
+/-- `interval_set::insert(right_open(lo, hi))`: over a discrete domain the closed interval `[lo, hi - 1]`; an empty
+    interval (`hi ≤ lo`) inserts nothing.  (Not used by the tracker — `AckedRange::next` only builds closed intervals —
+    but `interval_start` / `interval_end` are written for such bounds; exercised by the `icl` correspondence stream.) -/
+def insertRO (s : ISet) (lo hi : Nat) : ISet := if lo < hi then insertIvl s lo (hi - 1) else s
+
+/-- `icl::cardinality(set)`: the number of points -/
+def ISet.card (s : ISet) : Nat := s.foldl (fun n j => n + (j.hi + 1 - j.lo)) 0
+
+/-- `set.iterative_size()` / `icl::interval_count(set)`: the number of maximal intervals -/
+def ISet.count (s : ISet) : Nat := s.length
+
 /-! ### AckedRange -/
 
 structure Range where
   first : Nat
   last : Nat
-deriving Repr
+deriving Repr, DecidableEq
 
 /-- `AckedRange::has_next` -/
 def Range.hasNext (r : Range) : Bool := decide (seqCompare r.first r.last ≤ 0)
@@ -81,7 +94,7 @@ structure Tracker where
   ack : Nat          -- ack_number_
   ivs : ISet         -- acked_intervals_
   useSack : Bool     -- use_sack_
-deriving Repr
+deriving Repr, DecidableEq
 
 /-- `AckTracker()` -/
 def Tracker.default : Tracker := { ack := 0, ivs := [], useSack := false }
@@ -123,7 +136,7 @@ inductive SackOpt where
   | absent                     -- no SACK option
   | edges (e : List Nat)       -- decoded edges
   | malformed                  -- data size not a multiple of 4: `malformed_option` is thrown
-deriving Repr
+deriving Repr, DecidableEq
 
 /-- `vector<uint32_t>` converter of `PDUOption::to` (src/pdu_option.cpp `convert_vector<uint32_t>`, big endian) -/
 def decodeEdges : List UInt8 → List Nat
